@@ -102,6 +102,45 @@ func attachStrace(tid int, f fault, logPath string) (*exec.Cmd, error) {
 	}
 }
 
+// watchTracer samples the state of the traced thread while strace is attached and returns the longest time it was
+// seen stopped by the tracer without a break (state 't' in /proc/self/task/<tid>/stat).  The stops strace needs to
+// inject a fault last microseconds; a loop thread that the tracer keeps stopped for seconds says nothing about gnet.
+func watchTracer(tid int) (stop func() int) {
+	done := make(chan struct{})
+	res := make(chan int, 1)
+	go func() {
+		var since time.Time
+		longest := time.Duration(0)
+		path := fmt.Sprintf("/proc/self/task/%d/stat", tid)
+		for {
+			select {
+			case <-done:
+				res <- int(longest / time.Millisecond)
+				return
+			case <-time.After(20 * time.Millisecond):
+			}
+			raw, err := os.ReadFile(path)
+			state := byte('?')
+			if err == nil {
+				if i := strings.LastIndexByte(string(raw), ')'); i >= 0 && i+2 < len(raw) {
+					state = raw[i+2]
+				}
+			}
+			if state == 't' {
+				if since.IsZero() {
+					since = time.Now()
+				}
+				if d := time.Since(since); d > longest {
+					longest = d
+				}
+			} else {
+				since = time.Time{}
+			}
+		}
+	}()
+	return func() int { close(done); return <-res }
+}
+
 func contains(s, sub string) bool {
 	for i := 0; i+len(sub) <= len(s); i++ {
 		if s[i:i+len(sub)] == sub {
@@ -154,6 +193,7 @@ func runFaultScenario(t *testing.T, rec *recorder, f fault, seed uint64, scratch
 		<-runErr
 		return false, nil
 	}
+	tracerStop := watchTracer(tid)
 	rec.errSites.Range(func(k, _ any) bool { rec.errSites.Delete(k); return true })
 	rec.emit("FaultArmed", "syscall", f.syscall, "errno", f.errno, "when", f.when, "hard", f.hard)
 	if f.fatal {
@@ -186,13 +226,21 @@ func runFaultScenario(t *testing.T, rec *recorder, f fault, seed uint64, scratch
 	}
 	pd := make(chan struct{})
 	go func() { wg.Wait(); close(pd) }()
+	t0 := time.Now()
 	select {
 	case <-pd:
 	case <-time.After(40 * time.Second):
+		// (if this very timer fires late the process itself was not running: nothing in it can be judged by the clock)
+		if late := time.Since(t0) - 40*time.Second; late > 5*time.Second {
+			rec.emit("HarnessStall", "late_ms", int(late/time.Millisecond))
+		}
 		rec.emit("PeersTimeout")
 	}
 	_ = cmd.Process.Signal(syscall.SIGINT)
 	_ = cmd.Wait()
+	if ms := tracerStop(); ms >= 500 {
+		rec.emit("TracerStall", "ms", ms)
+	}
 	rec.emit("FaultDisarmed")
 	// where did the fault land?  strace counts every call of that name on the loop's thread, including the
 	// writes to the poller's own eventfd (wake-ups), which are not calls made on behalf of a connection
